@@ -1,0 +1,70 @@
+//go:build verif
+
+package driver
+
+// Contracts checked by /verif (govc). Comment-only file: it adds no code.
+
+//@ ghost func noNil(rs records) bool = forall j int :: 0 <= j && j < len(rs) ==> rs[j] != nil
+//@ ghost func hasKey(rs records, key string) bool = exists j int :: 0 <= j && j < len(rs) && rs[j].key == key
+//@ ghost func uniqueKeys(rs records) bool = forall a, b int :: 0 <= a && a < b && b < len(rs) ==> rs[a].key != rs[b].key
+
+//@ func (*records).Index
+//@   props C10
+//@   requires rs != nil && noNil(*rs)
+//@   ensures [found] result1 ==> 0 <= result0 && result0 < len(*rs) && (*rs)[result0].key == key && (forall j int :: 0 <= j && j < result0 ==> (*rs)[j].key != key)
+//@   ensures [absent] !result1 ==> result0 == -1 && !hasKey(*rs, key)
+//@   ensures [readonly] *rs == old(*rs)
+//@   loop 1 invariant forall j int :: 0 <= j && j < #iter ==> (*rs)[j].key != key
+
+//@ func records.Exists
+//@   props C10
+//@   requires noNil(rs)
+//@   ensures [iff] result <==> hasKey(rs, key)
+
+//@ func records.Get
+//@   props C10
+//@   requires noNil(rs)
+//@   ensures [found] hasKey(rs, key) ==> result != nil && result.key == key && (exists j int :: 0 <= j && j < len(rs) && rs[j] == result)
+//@   ensures [absent] !hasKey(rs, key) ==> result == nil
+
+//@ func (*records).removeAt
+//@   props C10
+//@   requires rs != nil && 0 <= index && index < len(*rs)
+//@   ensures [len] len(*rs) == old(len(*rs)) - 1
+//@   ensures [returned] result == old((*rs)[index])
+//@   ensures [prefix] forall j int :: 0 <= j && j < index ==> (*rs)[j] == old((*rs)[j])
+//@   ensures [shifted] forall j int :: index <= j && j < len(*rs) ==> (*rs)[j] == old((*rs)[j+1])
+
+//@ func (*records).Remove
+//@   props C10
+//@   requires rs != nil && noNil(*rs) && uniqueKeys(*rs)
+//@   ensures [absent] !old(hasKey(*rs, key)) ==> r == nil && *rs == old(*rs)
+//@   ensures [found] old(hasKey(*rs, key)) ==> r != nil && r.key == key && len(*rs) == old(len(*rs)) - 1 && !hasKey(*rs, key)
+//@   ensures [others-kept] forall k string :: k != key && old(hasKey(*rs, k)) ==> hasKey(*rs, k)
+
+//@ func (*records).Replace
+//@   props C10
+//@   requires rs != nil && noNil(*rs) && rec != nil
+//@   ensures [absent] !old(hasKey(*rs, key)) ==> result == nil
+//@   ensures [found] old(hasKey(*rs, key)) ==> result != nil && result.key == key && (exists j int :: 0 <= j && j < len(*rs) && (*rs)[j] == rec)
+//@   ensures [len] len(*rs) == old(len(*rs))
+
+//@ ghost func lget(m labels, k string) string = ite(has(m, k), m[k], "")
+
+//@ func labels.keys
+//@   props C10
+//@   ensures [sound] forall j int :: 0 <= j && j < len(ls) ==> has(lbs, ls[j])
+//@   ensures [complete] forall k string :: has(lbs, k) ==> (exists j int :: 0 <= j && j < len(ls) && ls[j] == k)
+//@   loop 1 invariant forall j int :: 0 <= j && j < len(ls) ==> #done[ls[j]] && has(lbs, ls[j])
+//@   loop 1 invariant forall k string :: #done[k] ==> (exists j int :: 0 <= j && j < len(ls) && ls[j] == k)
+
+//@ func labels.get
+//@   props C10
+//@   ensures result == lget(lbs, key)
+
+//@ func labels.match
+//@   props C10
+//@   ensures [iff] result <==> (forall k string :: has(set, k) ==> lget(lbs, k) == lget(set, k))
+//@   loop 1 invariant forall j int :: 0 <= j && j < #iter ==> lget(lbs, #range[j]) == lget(set, #range[j])
+//@   loop 1 invariant forall j int :: 0 <= j && j < len(#range) ==> has(set, #range[j])
+//@   loop 1 invariant forall k string :: has(set, k) ==> (exists j int :: 0 <= j && j < len(#range) && #range[j] == k)
